@@ -188,4 +188,61 @@ theorem getByTensors_quiet (cfg : Cfg) (s : State) (mods : List String) (tys : L
           rw [← select_congr hf.1]; exact hb
         · exact ⟨s1, rfl, hf.1, ok1⟩
 
+theorem specGet_congr {s t : State} (h : Same s t) (arg : BackendArg) (tys : List Nat) :
+    specGet s arg tys = specGet t arg tys := by
+  simp [specGet, h.names, h.stack, select_congr h]
+
+/-- `_get` in a quiet state with a sound memo (the property theorem `get_quiet_spec` of C11). -/
+theorem get_quiet (cfg : Cfg) (s : State) (mods : List String) (arg : BackendArg) (tys : List Nat)
+    (q : Quiet s mods) (ok : MemoOK s) :
+    (match s.get cfg mods arg tys with
+      | .ok (s', b) => specGet s arg tys = .ok b ∧ Same s s' ∧ MemoOK s' ∧ Quiet s' mods
+      | .error e => specGet s arg tys = .error e) := by
+  cases arg with
+  | obj b => simp [State.get, specGet, Same.refl, ok, q]
+  | name n =>
+    have hn := getByName_quiet cfg s mods false n q
+    cases hd : dictGet s.names n with
+    | some b => simp [State.get, specGet, hn.1 b hd, hd, Same.refl, ok, q]
+    | none => simp [State.get, specGet, hn.2 hd, hd]
+  | none =>
+    cases hs : s.stack.getLast? with
+    | some b => simp [State.get, specGet, hs, Same.refl, ok, q]
+    | none =>
+      have hg := getByTensors_quiet cfg s mods tys q ok
+      simp only [State.get, specGet, hs]
+      by_cases hbad : tys.all isScalarTy = true ∧ dictGet s.names "numpy" = none ∧ (s.memo.find? (·.1 == tys)).isNone
+      · simp [hg.1 hbad, hbad.1, hbad.2.1]
+      · obtain ⟨s', he, hsame, hok⟩ := hg.2 hbad
+        have hcond : (tys.all isScalarTy && (dictGet s.names "numpy").isNone) = false := by
+          by_cases h1 : tys.all isScalarTy = true
+          · cases h2 : dictGet s.names "numpy" with
+            | some _ => simp
+            | none =>
+              -- then the memo must have hit; a sound memo entry contradicts an empty candidate list
+              have h3 : (s.memo.find? (·.1 == tys)).isNone = false := by
+                cases h4 : (s.memo.find? (·.1 == tys)).isNone with
+                | false => rfl
+                | true => exact absurd ⟨h1, h2, h4⟩ hbad
+              cases h5 : s.memo.find? (·.1 == tys) with
+              | none => simp [h5] at h3
+              | some e =>
+                have hm := find_memo h5
+                have := ok e hm.1
+                rw [hm.2] at this
+                simp [select, candidates, h1, h2, keepMax] at this
+          · simp [h1]
+        simp only [he, hcond]
+        have q' : Quiet s' mods := quiet_congr hsame q
+        cases hsel : select s tys with
+        | nil => simp
+        | cons b rest =>
+          cases rest with
+          | nil => simp [hsame, hok, q']
+          | cons c rest' => simp
+  | other =>
+    cases hs : s.stack.getLast? with
+    | some b => simp [State.get, specGet, hs, Same.refl, ok, q]
+    | none => simp [State.get, specGet, hs]
+
 end Einx.Registry
